@@ -33,7 +33,10 @@ impl Slot {
     pub fn fresh() -> Self {
         SLOT_TABLE.with_borrow_mut(|tab| {
             let old_val = tab.fresh_idx;
-            tab.fresh_idx += 4;
+            // never wrap around: a wrapped counter would hand out old slots again.
+            tab.fresh_idx = old_val
+                .checked_add(4)
+                .expect("Slot::fresh: ran out of fresh slots");
             Slot(old_val)
         })
     }
@@ -45,13 +48,18 @@ impl Slot {
 
     /// Generates a named slot like `$xyz`
     pub fn named(s: &str) -> Slot {
-        if let Ok(x) = s.parse::<u32>() {
-            return Slot(x * 4); // numeric
+        // Only the exact names printed by `Display` denote numeric / fresh slots.
+        // Everything else ("05", "+5", "f+5", out-of-range numbers) is an ordinary name,
+        // so that distinct names always denote distinct slots.
+        if let Some(x) = parse_canonical(s) {
+            if x < (1 << 30) {
+                return Slot(x * 4); // numeric
+            }
         }
 
         SLOT_TABLE.with_borrow_mut(|tab| {
-            if s.starts_with("f") {
-                if let Ok(x) = s[1..].parse::<u32>() {
+            if let Some(x) = s.strip_prefix('f').and_then(parse_canonical) {
+                if x < (1 << 30) - 1 {
                     let out = x * 4 + 1;
                     if tab.fresh_idx <= out {
                         tab.fresh_idx = out + 4;
@@ -70,6 +78,18 @@ impl Slot {
             tab.named_map.insert(s.to_string(), i);
             Slot(i) // new named
         })
+    }
+}
+
+// Parses a canonical decimal numeral: ASCII digits only, no sign, no leading zero.
+fn parse_canonical(s: &str) -> Option<u32> {
+    let canonical = !s.is_empty()
+        && s.bytes().all(|b| b.is_ascii_digit())
+        && (s.len() == 1 || !s.starts_with('0'));
+    if canonical {
+        s.parse::<u32>().ok()
+    } else {
+        None
     }
 }
 
